@@ -1111,6 +1111,15 @@ def feature_files() -> List[Feature]:
            f'<SHORT-NAME>o</SHORT-NAME><DOP-BASE-REF ID-REF="{L}.DOP.u8"/></OUTPUT-PARAM>'
            "</OUTPUT-PARAMS></SINGLE-ECU-JOB>")
     del job  # (OUTPUT-PARAM with OID: found by the perturbation of OutputParam.oid)
+    # -- two containers: an ECU variant in one document inherits from a base variant in another
+    # (PARENT-REF with DOCREF); the file of the derived layer sorts before that of its parent
+    child = (HEAD + '<DIAG-LAYER-CONTAINER ID="DLC.a_child"><SHORT-NAME>a_child</SHORT-NAME>'
+             '<ECU-VARIANTS><ECU-VARIANT ID="EV"><SHORT-NAME>a_child_ev</SHORT-NAME>'
+             '<PARENT-REFS><PARENT-REF ID-REF="L" DOCREF="z_parent" DOCTYPE="CONTAINER" '
+             'xsi:type="BASE-VARIANT-REF"/></PARENT-REFS></ECU-VARIANT></ECU-VARIANTS>'
+             "</DIAG-LAYER-CONTAINER>" + TAIL)
+    F.append(("two-containers-inheritance", "EcuVariantRaw",
+              [("a_child.odx-d", child), ("z_parent.odx-d", mini_container("z_parent"))], {}))
     # -- elements that are present but empty: whatever the parser makes of them (an empty string
     # for child elements read with findtext) has to survive the round trip
     tt_empty = dop(f"{L}.DOP.tte", "tt_empty", compu("TEXTTABLE", scales(
